@@ -98,6 +98,16 @@ CHECKS = [
         "Trusted: reference AVM, O2 index dimension. Reads of up to three members.",
         "explicit-state exploration of the concrete AVM over whole transaction groups; invariant = tealer's per-member sub-contexts",
         "DESIGN.md 3/C10"),
+    chk("C11", "exploration",
+        "Every straight-line opcode sequence up to length 3 over one representative per (pops,pushes) class of the v1-v8 table plus every "
+        "stack-shuffling / multi-push opcode with small immediates (length 4 over the shuffle core in thorough), the complete per-opcode "
+        "table, control opcodes as last instruction: a position machine driven by the independent table decides which instruction "
+        "produced every operand (or 'before the block'), and construct_stack_ast must agree slot by slot, including the declared "
+        "pop/push counts. All {int, txn, &&, ||, !} code sequences up to 7 instructions check And/Or flattening (leaves in order, "
+        "has_unknown) against an independent symbolic evaluation.",
+        "Trusted: pops/pushes of mc/spec.py (single source, from the AVM specification).",
+        "bounded-exhaustive enumeration of instruction sequences against a reference position machine (no sampling)",
+        "DESIGN.md 3/C11"),
     chk("C12", "model_checking",
         "G2 programs over a mixed alphabet and G1 raw layouts x every simple dispatch path (<= 4 main blocks) x orders of several "
         "functions built from the same contract: path [B0] must give a main graph isomorphic to the contract's (ids, text, lines, "
@@ -120,6 +130,15 @@ CHECKS = [
         "Trusted: reference AVM, O2. Positions 0-3; 'cleared' only for relations stated in the configuration and single-field detectors.",
         "explicit-state exploration of the product of the configured contracts' concrete executions over a shared transaction group, per configuration of an exhaustively enumerated configuration space",
         "DESIGN.md 3/C13"),
+    chk("C19", "exploration",
+        "Every opcode x field of the independent v1-v8 table as a one-instruction program under #pragma version 1-8 and without pragma: the "
+        "'not supported' diagnostics (instruction and field, with the introduction version they print) must appear exactly when the table "
+        "version exceeds the declared one; ordered pairs of mode/version class representatives check Stateful/Stateless/Any "
+        "classification, the mixture diagnostic and the contract type; blocks of 1-3 instructions check the displayed 'cost = n' "
+        "comment against the sum of table costs for the declared version (labels and #pragma cost nothing).",
+        "Trusted: mc/spec.py (names, modes, versions >= 3 cross-checked with PyTeal at start; costs and v1/v2 versions single source).",
+        "exhaustive enumeration of the opcode x field x version table and of class-representative pairs against an independent specification table",
+        "DESIGN.md 3/C19"),
 ]
 
 _PENDING = "check not built yet in this session (work in progress; see DESIGN.md section 3 for the planned check)"
